@@ -5,6 +5,7 @@ import TaskModel.Sched.DeadlockLemmas
 import TaskModel.Sched.TermInv
 import TaskModel.Sched.LiveMain
 import TaskModel.Sched.LiveFinal
+import TaskModel.Sched.TermAll
 import TaskModel.Gen.Codes
 /-!
 # C07 — Bounded concurrency, no deadlock, guaranteed termination
@@ -170,9 +171,11 @@ theorem C07_cycle_error_wrapped (x : Act) (c : Cmd) :
 
 /-! ## deadlock freedom and termination
 
-Proved: deadlock freedom (`C07_no_deadlock`) and termination (`C07_terminates`) for acyclic
-programs, no phase is a dead end, what each blocking phase waits for, and the
-machine-checked deadlock of a cycle through a `run: once` task. -/
+Proved: deadlock freedom (`C07_no_deadlock`) for programs without a reference cycle through
+a deduplicated task, termination for all programs (`C07_terminates_all`; `C07_terminates`
+with a bound independent of the call limit for acyclic ones), what a quiescent configuration
+looks like (`C07_completes`), no phase is a dead end, what each blocking phase waits for,
+and the machine-checked deadlock of a cycle through a `run: once` task. -/
 
 /-- the static references (`deps:` and `task:` commands) are acyclic: some rank decreases
 along every reference -/
@@ -231,6 +234,17 @@ theorem C07_terminates (P : Program) (F : Flags) (n : Nat) (hac : Acyclic P) :
     ∃ bound, ∀ (tr : List Label) (c : Config), replay P F (init n) tr = some c → tr.length ≤ bound := by
   obtain ⟨rank, hr⟩ := hac
   exact ⟨n * topCost P rank, fun tr c h => trace_bounded P F rank hr n tr c h⟩
+
+/-- **C07 (termination, all programs).** Cyclic or not: every program, all flags, every
+number of calls given to `Run` — all accepted traces are bounded (by
+`2 n + Σ_t (maxCalls − 1) · unitCost t`): the call counter lets fewer than `maxCalls`
+activations of each task past `enter`, each of which costs a bounded number of labels.  So a
+cycle through `run: always` tasks neither hangs (`C07_no_deadlock` via
+`noDedupCycle_of_always`) nor runs forever nor creates unboundedly many activations: it ends,
+and the activations that hit the limit return 204 (`C07_cycle_error`). -/
+theorem C07_terminates_all (P : Program) (F : Flags) (n : Nat) :
+    ∃ bound, ∀ (tr : List Label) (c : Config), replay P F (init n) tr = some c → tr.length ≤ bound :=
+  ⟨_, fun tr c h => trace_bounded_all P F n tr c h⟩
 
 /-- every activation takes boundedly many steps, in any program (cyclic or not): each local
 step decreases `rem` -/
@@ -441,6 +455,12 @@ private def selfDepRun : List Label :=
 example : ((replay selfDep lim3 (init 1) selfDepRun).map
     (fun c => (c.tokens, c.callCount 0, (c.act? 3).map (·.res), (c.act? 1).map (fun x => (x.res, x.phase)))))
     = some (0, 3, some (.typed 204), some (.typed 204, .done)) := by decide
+-- a cyclic program of `run: always` tasks meets the hypothesis of `C07_no_deadlock`
+example : NoDedupCycle selfDep := noDedupCycle_of_always selfDep (by
+  intro t d h
+  match t with
+  | 0 => simp [selfDep] at h; subst h; rfl
+  | t + 1 => simp [selfDep] at h)
 -- the third activation cannot take a slot
 example : (replay selfDep lim3 (init 1) (selfDepRun.take 7 ++ [⟨3, .acquire⟩])).isNone = true := by decide
 
